@@ -153,6 +153,8 @@ theorem attr_id_normalized (he : EnvFacts env) {a : Nat × Str} (hv : valueOK en
     he.namespaceStr_inj hns he.xmlNamespace_lt (by rw [hx.1, he.ns1])
   exact (valueOK_attribute_facts hv).2.2 (by simp [isXmlIdName, h1, hx.2])
 
+set_option linter.unusedSimpArgs false in
+set_option linter.unusedVariables false in
 /-- One spelled attribute: an ordinary attribute denoting (expanded name, value). -/
 theorem spellAttr_facts (he : EnvFacts env) {s : FStack} {fs : Frames} {sc : Scope}
     (hrel : ScopeRel env s fs sc) {a : Nat × Str} (hv : valueOK env (.attribute a.1 a.2) = true)
@@ -160,7 +162,7 @@ theorem spellAttr_facts (he : EnvFacts env) {s : FStack} {fs : Frames} {sc : Sco
     (spellAttr env s a).declares = none ∧ NSAttr.denote sc (spellAttr env s a) = attrStr env a ∧
       (spellAttr env s a).pfx.text = prefixText env p ∧
       ((spellAttr env s a).pfx.text ≠ [] → (sc.lookup (spellAttr env s a).pfx.text).isSome = true) := by
-  obtain ⟨h1, h2, h3, h4, h5, _⟩ := hrel.attribute he hp
+  obtain ⟨h1, h2, h3, h4, h5, hns⟩ := hrel.attribute he hp
   obtain ⟨_, hx, hid⟩ := valueOK_attribute_facts hv
   have hpfx : (spellAttr env s a).pfx.text = prefixText env p := by simp [spellAttr, hp, okPrefix, sp0]
   have hloc : (spellAttr env s a).loc.text = env.localName a.1 := rfl
@@ -183,8 +185,18 @@ theorem spellAttr_facts (he : EnvFacts env) {s : FStack} {fs : Frames} {sc : Sco
     congr 1
     split
     · rename_i hc
-      simp only [Bool.and_eq_true, beq_iff_eq] at hc
-      exact hid (by simp [isXmlIdName, h5 hc.2, hc.1])
+      -- the ID normalisation applies: by the name as written (`xml:id`), or — after the repair of
+      -- the builder (wt-parsefix) — by the expanded name; either way the value is normalised already.
+      -- `hc` is `local = id ∧ prefix = xml` in the first case, `URI = XML namespace ∧ local = id` in the
+      -- second; the script below is valid for both.
+      simp only [Bool.and_eq_true, beq_iff_eq, Prod.mk.injEq] at hc
+      obtain ⟨x, y⟩ := hc
+      have hl : env.localName a.1 = ['i', 'd'] := by first | exact x | exact y
+      have hn : env.nsOfName a.1 = Env.xmlNamespace := by
+        first
+          | exact h5 y
+          | exact he.namespaceStr_inj hns he.xmlNamespace_lt (x.trans he.ns1.symm)
+      exact hid (by simp [isXmlIdName, hn, hl])
     · rfl
 
 /-- The prefixes `attrTokens` found. -/
